@@ -15,7 +15,7 @@ CFG = {
     "budget": {"quick": 40, "thorough": 900},
     "rule": ("lww-map: each seed draws 1-3 data nodes, copies, 1-2 shards, 1-2 property names x 1-3 ids, 6-36 operations (apply merge/replace/default with a tape-chosen tag subset and "
              "values unique per write, delete of one id or of a whole name, query by id / list / list ordered by a tag) with the fake clock advanced >= 1 ms before each; when faults are on, "
-             "each operation draws per message kind (update, tombstone, read-repair) which replicas are unreachable (never all of them for the write itself); a delete that a replica missed is followed by 12 immediate queries "
+             "each operation draws per message kind (update, tombstone, read-repair) which replicas are unreachable (never all of them for the write itself); a delete that a replica missed is followed by 64 immediate queries "
              "(the answer must not depend on which node answers first). long-history (1 run in 24): one key, 60-120 applies through the liaison, then queries. "
              "repair-converge: 2-4 replicas, 1-3 keys, 2-12 updates/deletes each delivered to a tape-chosen subset of replicas (update and its tombstones for older revisions independently), "
              "0-8 arbitrary exchanges (one-way push through Database.Repair or the two-step gossip exchange with send-back, duplicates included), then every ordered pair once. "
